@@ -26,6 +26,7 @@ type propInfo struct {
 	pkg       string // inject package for inproc
 	level     string // evidence level
 	racePass  bool   // additionally run the free-running -race pass
+	disturb   bool   // additionally run the enumeration with unrelated calls interposed before every Match* call
 	shardsQ   int
 	shardsT   int
 	timeoutQ  time.Duration
@@ -64,7 +65,8 @@ var updMatrixWide = []string{"", "true", "clean", "yes", "TRUE", "1", "true ", "
 
 func init() {
 	for _, id := range []string{"C01", "C02", "C03", "C04", "C16", "C17", "C18", "C19"} {
-		reg(&propInfo{id: id, engine: "inproc", pkg: "snaps", level: "model_checking"})
+		// all but C03 (whose state key includes the registry) repeat their enumeration with unrelated calls interposed
+		reg(&propInfo{id: id, engine: "inproc", pkg: "snaps", level: "model_checking", disturb: id != "C03"})
 	}
 	// C09: "in every other mode no entry or file is removed" — other modes include the spellings a lenient boolean parser accepts
 	reg(&propInfo{id: "C09", engine: "inproc", pkg: "snaps", level: "model_checking", envMatrix: append(append([]string{}, updMatrix...), "1", "TRUE", "t"), shardsQ: 2, shardsT: 4})
@@ -75,7 +77,7 @@ func init() {
 	reg(&propInfo{id: "C12", engine: "inproc", pkg: "snaps", level: "model_checking", racePass: true})
 	reg(&propInfo{id: "C20", engine: "inproc", pkg: "snaps", level: "model_checking", racePass: true, envMatrix: updMatrix, shardsQ: 2, shardsT: 4})
 	reg(&propInfo{id: "C13", engine: "inproc", pkg: "snaps", level: "exploration"})
-	reg(&propInfo{id: "C14", engine: "inproc", pkg: "snaps", level: "exploration"})
+	reg(&propInfo{id: "C14", engine: "inproc", pkg: "snaps", level: "exploration", disturb: true})
 	reg(&propInfo{id: "C15", engine: "inproc", pkg: "snaps", level: "exploration"})
 	reg(&propInfo{id: "C08", engine: "e3", level: "model_checking"})
 	reg(&propInfo{id: "C11", engine: "e3", level: "model_checking"})
@@ -231,7 +233,14 @@ func runInproc(p *propInfo, tier string, seed int, scratch, replay string, shard
 	if tier == "thorough" {
 		to = p.timeoutT
 	}
-	results := runShards(bin, p, tier, seed, scratch, replay, n, to, "")
+	mode := ""
+	if replay != "" {
+		mode = replayMode(replay)
+	}
+	results := runShards(bin, p, tier, seed, scratch, replay, n, to, mode)
+	if p.disturb && replay == "" {
+		results = append(results, runShards(bin, p, tier, seed, scratch, "", n, to, "disturb")...)
+	}
 	m := merge(results)
 	if p.racePass && replay == "" {
 		rbin, err := buildTestBinary(scratch, p.pkg, true)
@@ -286,6 +295,9 @@ func runShards(bin string, p *propInfo, tier string, seed int, scratch, replay s
 				"VERIF_MODE=" + mode, "VERIF_BIN=" + bin, "GOMAXPROCS=2",
 				"VERIF_DEADLINE=" + fmt.Sprint(time.Now().Add(to*8/10).Unix()),
 			}
+			if mode == "disturb" && tier == "quick" && (prop == "C01" || prop == "C02") {
+				env = append(env, "VERIF_DISTURB_THIN=4")
+			}
 			if mode == "race" {
 				env[len(env)-2] = "GOMAXPROCS=8"
 				env = append(env, "GORACE=halt_on_error=0 log_path="+filepath.Join(scratch, "racelog"))
@@ -335,6 +347,19 @@ func runShards(bin string, p *propInfo, tier string, seed int, scratch, replay s
 		<-done
 	}
 	return outs
+}
+
+// replayMode: the driver mode recorded in a replay file ("disturb" or "").
+func replayMode(path string) string {
+	b, err := os.ReadFile(path)
+	if err != nil {
+		return ""
+	}
+	var rf struct {
+		Mode string `json:"mode"`
+	}
+	json.Unmarshal(b, &rf)
+	return rf.Mode
 }
 
 // replayEnv extracts the UPDATE_SNAPS value recorded in a replay file's case.
